@@ -10,7 +10,7 @@ from .. import tables
 from ..tables import Atom
 from . import cmpcore
 from .c19_norm import normalise, normal_form
-from .c19_site import r5, r6
+from .c19_site import r5, r6, r7
 
 UNIVERSAL = 'mesonbuild/utils/universal.py'
 
@@ -384,6 +384,8 @@ def _r3_single_pass(ctx: RuleCtx, mod: T.Any, vm: T.Any, vmn: T.Any) -> None:
                     unknown.append(par)
             elif isinstance(par, (ast.List, ast.Tuple)) or (isinstance(par, ast.Compare) and all(isinstance(o, (ast.Is, ast.IsNot)) for o in par.ops)):
                 pass              # wrapped into a display / identity test: not walked
+            elif par is None or (isinstance(par, ast.UnaryOp) and isinstance(par.op, ast.Not)) or isinstance(par, ast.BoolOp):
+                pass              # truth test: does not walk it (a generator is always true, a list is true when non-empty)
             elif isinstance(par, ast.Starred):
                 drains.append(par)
             else:
@@ -476,6 +478,13 @@ def _r3_compare_many(ctx: RuleCtx, mod: T.Any) -> None:
     ctx.floor('version_compare_many returns', len(rets), 1)
     for ret in {norm(s): s for s in rets}.values():
         v = ret.value
+        if isinstance(v, ast.Tuple) and len(v.elts) == 3 and isinstance(v.elts[1], ast.List) and not v.elts[1].elts:
+            # an early exit that reports NO failed requirement: the verdict "every requirement holds" is then true
+            if isinstance(v.elts[0], ast.Constant) and isinstance(v.elts[0].value, bool):
+                ctx.require(v.elts[0].value is True, 'version_compare_many: an exit without failed requirements reports success', mod, 'version_compare_many', ret,
+                            f'`{norm(ret)}` reports failure although its list of failed requirements is empty (a constraint list holds iff each constraint holds: an empty list holds)')
+                continue
+            raise Undecided(f'version_compare_many: cannot read the verdict of {short(ret)}')
         if not (isinstance(v, ast.Tuple) and len(v.elts) == 3 and all(isinstance(x, ast.Name) for x in v.elts[1:])):
             raise Undecided(f'version_compare_many: cannot read the result {short(ret)}')
         failed, good = v.elts[1].id, v.elts[2].id          # type: ignore[attr-defined]
@@ -1106,6 +1115,7 @@ RULES = [
     Rule('C19.R4b', 'Range.__post_init__ emptiness table', r4_post_init),
     Rule('C19.R4c', 'Range.intersect (private helpers inlined) / always tables', r4_intersect),
     Rule('C19.R4d', 'version_check_to_range operator table', r4_check_to_range),
+    Rule('C19.R7', 'the version_compare method answers with the verdict of version_compare_many, not with range membership', r7),
     Rule('C19.R6', 'call sites: the 3-tuple of version_compare_many is never used as a truth value', r6),
     Rule('C19.R5', 'if-clause narrowing: always() receiver/argument roles, narrowed range stored, saved range restored on every path', r5),
 ]
